@@ -269,6 +269,19 @@ class Ctx:
         """Evaluate `bad_cases judge cases` in the kernel VM over the given Gallina case terms
         (one string per case), sharded and in parallel.  Returns (bad, nontrivial_count, err):
         bad = list of (global index, code)."""
+        # make sure every GT module the case header imports is compiled (judge files are outside the
+        # Require-cone of Props/Cxx.v); make is incremental, so this is cheap when up to date
+        mods = []
+        for m in re.finditer(r"From\s+GT\s+Require\s+(.*?)\.(?=\s|$)", strip_comments(header), re.S):
+            mods += [n for n in m.group(1).split() if n not in ("Import", "Export")]
+        mods += re.findall(r"Require\s+(?:Import|Export)\s+GT\.([\w.]+)\s*\.", header)
+        targets = sorted({"theories/" + n.replace(".", "/") + ".vo" for n in mods})
+        key = tuple(targets)
+        if targets and key not in getattr(self, "_built", set()):
+            ok, log = self.coq_build(targets)
+            if not ok:
+                return [], 0, "cannot build the judge modules %s:\n%s" % (targets, log[-2500:])
+            self._built = getattr(self, "_built", set()) | {key}
         # shards of at most `shard` cases and at most ~3 MB of text each (Coq's parser recurses over
         # a list literal: very long literals overflow its stack)
         shards, starts, cur, size = [], [], [], 0
